@@ -116,13 +116,14 @@ func quorumRule(c *Ctx, id string) {
 
 // tallyRule is shared by C01-R2, C14-R1, C15-R3.
 func tallyRule(c *Ctx, id string) {
-	rule := c.R.Rule(id, "counted once: every addition of a validator's voting power into a tally is (a) indexed by the position of a range loop over the per-validator slice, or (b) edge-dominated by `slot == nil` for a per-validator slot that is stored on the same path, or (c) edge-dominated by a miss in a map keyed by the signer that is inserted on the same path", 5)
+	rule := c.R.Rule(id, "counted once: every addition of a validator's voting power into a tally is (a) indexed by the position of a range loop over the per-validator slice, or (b) edge-dominated by `slot == nil` for a per-validator slot that is stored on the same path, or (c) edge-dominated by a miss in a map that is inserted on the same path and is keyed by the very value the counted validator was looked up by (its address)", 5)
 	for _, t := range c.TallySites() {
 		f := t.Fn
 		n := core.Short(fname(f))
 		kind, ok := "", false
 		// (a) range-indexed
-		if strings.Contains(t.Addend, "[(phi(-1|loop) + 1)]") || strings.Contains(t.Addend, ",(phi(-1|loop) + 1))#1.VotingPower") {
+		// the range must be over the per-validator slice (Validators[i] / GetByIndex(i)), not over an input list
+		if strings.Contains(t.Addend, ".Validators[(phi(-1|loop) + 1)]") || strings.Contains(t.Addend, ",(phi(-1|loop) + 1))#1.VotingPower") {
 			kind, ok = "range-indexed", true
 		}
 		if !ok {
@@ -142,8 +143,11 @@ func tallyRule(c *Ctx, id string) {
 					// (c) map miss: "!M[K]#1"
 					if strings.HasPrefix(s, "!") && strings.HasSuffix(s, "#1") && strings.Contains(s, "[") {
 						lk := strings.TrimSuffix(strings.TrimPrefix(s, "!"), "#1")
-						if hasMapUpdate(f, lk, t.Add) {
+						// the key must be the identity the counted validator was looked up by
+						if has, key := mapUpdateKey(f, lk, t.Add); has && strings.Contains(t.Addend, ","+key+")#1") {
 							kind, ok = "map-miss-guarded:"+lk, true
+						} else if has {
+							kind = "seen-set keyed by " + shorten(key) + " which is not the key of the validator lookup"
 						}
 					}
 				}
@@ -156,6 +160,11 @@ func tallyRule(c *Ctx, id string) {
 
 // hasMapUpdate: a MapUpdate of M[K] (rendered "M[K]") in the same block as, or dominating/dominated by, site.
 func hasMapUpdate(f *cfgx.Fn, lookup string, site ssa.Instruction) bool {
+	has, _ := mapUpdateKey(f, lookup, site)
+	return has
+}
+
+func mapUpdateKey(f *cfgx.Fn, lookup string, site ssa.Instruction) (bool, string) {
 	for _, b := range f.F.Blocks {
 		for _, ins := range b.Instrs {
 			mu, ok := ins.(*ssa.MapUpdate)
@@ -164,12 +173,12 @@ func hasMapUpdate(f *cfgx.Fn, lookup string, site ssa.Instruction) bool {
 			}
 			if cfgx.Expr(mu.Map)+"["+cfgx.Expr(mu.Key)+"]" == lookup {
 				if f.BlockOf(mu) == f.BlockOf(site) || f.Dominates(site, mu) {
-					return true
+					return true, cfgx.Expr(mu.Key)
 				}
 			}
 		}
 	}
-	return false
+	return false, ""
 }
 
 func c01R3(c *Ctx) {
